@@ -89,14 +89,32 @@ def strip_hints(n):
     return n
 
 
-def run_variants(lib, ast, env, texts, kind, must):
+def run_variants(lib, ast, env, texts, kind, must, want=None):
     vs = []
     for t in texts:
         h = F.Harnessed(lib, env)
         o = h.parse(t)
         o['text'] = t
+        if want is not None:     # the raw result as Python prints it (for the exactness of literals)
+            r = lib.Parser().parse(t)
+            o['repr'] = repr(r['result']) if r['error'] is None else 'error ' + str(r['error'])
         vs.append(o)
-    return {'kind': kind, 'ast': strip_hints(ast), 'env': env, 'must': must, 'vars': vs, 'in': texts}
+    out = {'kind': kind, 'ast': strip_hints(ast), 'env': env, 'must': must, 'vars': vs, 'in': texts}
+    if want is not None:
+        out['want'] = want
+    return out
+
+
+def spelled(lex):
+    """the number a literal spells, converted by Python's own correctly rounded decimal reader"""
+    if lex.endswith('%'):
+        return repr(int(lex[:-1]) / 100)
+    if '^' in lex:
+        b, e = lex.split('^')
+        return repr(int(b) ** int(e))
+    if '.' in lex:
+        return repr(float(lex if not lex.startswith('.') else '0' + lex))
+    return repr(int(lex))
 
 
 def ws_from(vec):
@@ -167,12 +185,19 @@ def main(tier, replay=None):
         elif kind == 'lit':
             t = render(ast)
             texts = [t, ' ' + t, t + '\t', '(' + t + ')', '\n( ' + t + ' )']
-            obs.append(run_variants(lib, ast, env, texts, kind, True))
+            obs.append(run_variants(lib, ast, env, texts, kind, True, want=spelled(t)))
         elif kind == 'layout':
             texts = [render(ast), render(ast, ws_from(c['layout'])), render(ast, ws_from(list(reversed(c['layout']))))]
             for s in (';', '\\'):
                 texts.append(render(set_sep(ast, s), ws_from(c['layout'])))
             obs.append(run_variants(lib, ast, env, texts, kind, True))
+    # C2S: random decimal literals, exactly the number they spell
+    for _ in range(2500 if quick else 60000):
+        ip = str(rng.randint(0, rng.choice([9, 99, 9999]))) if rng.random() < 0.85 else ''
+        fp = ''.join(rng.choice('0123456789') for _ in range(rng.randint(1, 8 - min(len(ip), 4))))
+        lex = rng.choice([ip + '.' + fp, ip + '.' + fp, (ip or '7') + '%', str(rng.randint(2, 9)) + '^' + str(rng.randint(0, 9)), ip or '0'])
+        node = F.num(lex)
+        obs.append(run_variants(lib, node, base_env(), [lex, '(' + lex + ')'], 'lit', True, want=spelled(lex)))
     # C2S: quoted literals over Unicode, both delimiters
     for _ in range(1500 if quick else 40000):
         q = rng.choice(['"', "'"])
